@@ -212,7 +212,7 @@ def gen_shape(rng, kinds=("rect", "circ", "poly"), scale=1.0, centered=True):
 
 
 def gen_obstacle(rng, oid, net, role=None, horizon=None, shape_kinds=("rect", "circ", "poly"), t0=None,
-                 state_cls=None, on_road=0.8):
+                 state_cls=None, on_road=0.8, p_stand=0.0):
     role = role or rng.weighted(["static", "dynamic", "dynamic_nopred", "dynamic_set", "env", "phantom"],
                                 [3, 4, 1, 1, 1, 1])
     lanelets = net["lanelets"]
@@ -253,6 +253,9 @@ def gen_obstacle(rng, oid, net, role=None, horizon=None, shape_kinds=("rect", "c
         return ob
     v = rng.uniform(0.5, 3.0)
     dth = rng.uniform(-0.15, 0.15)
+    if p_stand > 0.0 and rng.chance(p_stand):
+        v = 0.0  # a vehicle standing still (same position at consecutive time steps) that turns on the spot
+        dth = rng.uniform(-0.9, 0.9)
     if role == "dynamic_set":
         occ = []
         x, y, th = pos[0], pos[1], ori
